@@ -363,10 +363,10 @@ func runBARRIER(c *Ctx) {
 			c.Violation(body, P.Pos(body.Pos()), "goroutine never exits", "the goroutine body has no return: wg.Done is never called and Wait never returns")
 		}
 	}
-	// (3) success returns of F after the first spawn are dominated by the wait event
+	// (3) returns of F after the first spawn are dominated by the wait event (no writer outlives the call)
 	ei := ir.ErrorResultIndex(F.Signature)
 	spawns := sh.spawnsIn(F)
-	var successRets []*ssa.Return
+	var successRets, lateRets []*ssa.Return
 	for _, r := range ir.Returns(F) {
 		after := false
 		for _, s := range spawns {
@@ -385,7 +385,7 @@ func runBARRIER(c *Ctx) {
 				c.Violation(F, P.InstrPos(r), "success return not dominated by wg.Wait", "flush can report success before the concurrent Store calls have completed")
 			}
 		} else if sh.wait == nil || !ir.Before(sh.wait, r) {
-			c.Note("error return at %s after the dispatcher was started is not preceded by close+Wait: the dispatcher goroutine leaks (not a property violation)", P.InstrPos(r))
+			lateRets = append(lateRets, r)
 		}
 	}
 	if len(successRets) == 0 {
@@ -404,6 +404,33 @@ func runBARRIER(c *Ctx) {
 					}
 				}
 			}
+		}
+	}
+	// (3b) an error return that leaves the writers running is a leak while nothing has been queued; once the node
+	// store was handed the queue, writes may be in flight and must be waited for before any return
+	for _, r := range lateRets {
+		var enq ssa.Instruction
+		for _, ci := range CallsOf(F) {
+			if _, isB := ci.Common().Value.(*ssa.Builtin); isB || qkey == "" {
+				continue
+			}
+			for _, a := range ci.Common().Args {
+				if objKey(a) == qkey && ir.InstrReaches(ci, r) {
+					enq = ci
+				}
+			}
+		}
+		for _, b := range F.Blocks {
+			for _, ins := range b.Instrs {
+				if snd, ok := ins.(*ssa.Send); ok && qkey != "" && objKey(snd.Chan) == qkey && ir.InstrReaches(snd, r) {
+					enq = snd
+				}
+			}
+		}
+		if enq != nil {
+			c.Violation(F, P.InstrPos(r), "return while queued writes are in flight", "flush returns (with an error) after handing nodes to the store queue ("+P.InstrPos(enq)+") without waiting for the writers: Persist.Store calls are still running when MakeRoot has returned, so nodes it already marked persisted are not in the store yet and a retry can report success before they are")
+		} else {
+			c.Note("error return at %s after the dispatcher was started, before anything is queued, is not preceded by close+Wait: the dispatcher goroutine leaks (not a property violation)", P.InstrPos(r))
 		}
 	}
 	if qkey == "" {
